@@ -28,8 +28,8 @@ RULE = (
     "distinct (hierarchy digest, file, history-prefix digest)."
 )
 TIERS = {
-    "quick": {"runs": 150, "budget_s": 45, "min_runs": 20, "run_timeout_s": 240},
-    "thorough": {"runs": 10000, "budget_s": 780, "min_runs": 400, "run_timeout_s": 600},
+    "quick": {"runs": 150, "budget_s": 45, "min_runs": 4, "run_timeout_s": 240},
+    "thorough": {"runs": 10000, "budget_s": 780, "min_runs": 40, "run_timeout_s": 600},
 }
 COMPONENTS_REAL = [
     "sqlfluff config loader (load_config_up_to_path/at_path, functools.cache'd file loaders), FluffConfig (from_root, make_child_from_path, copy, process_raw_file_for_config, __getstate__/__setstate__), nested_combine",
